@@ -1031,7 +1031,8 @@ pub fn scenario_file(seed: u64) -> String {
             4 => format!("address payable to = payable({}); require(msg.sender == {});", owner, owner),
             _ => String::new(),
         };
-        format!("  address payable {};\n  function kill() {} {}{{ {} selfdestruct({}); }}\n", owner, ["external", "public"][r.below(2)], guard, pre, owner)
+        let target = [owner.to_string(), owner.to_string(), format!("payable(reg.payoutOf(msg.sender))"), format!("reg.route(payable(msg.sender), {})", owner)][r.below(4)].clone();
+        format!("  address payable {};\n  function kill() {} {}{{ {} selfdestruct({}); }}\n", owner, ["external", "public"][r.below(2)], guard, pre, target)
     };
     if twin_kill {
         body.push_str(&kill_variant(r, "owner_"));
@@ -1040,7 +1041,9 @@ pub fn scenario_file(seed: u64) -> String {
     if !twin_kill && r.chance(1, 3) {
         let guard = ["", "onlyOwner ", "nonReentrant onlyOwner ", "nonReentrant "][r.below(4)];
         let pre = ["", "require(msg.sender == owner_);", "require(owner_ == msg.sender, \"no\");", "if (msg.sender != owner_) revert();"][r.below(4)];
-        let call = ["selfdestruct(payable(msg.sender));", "selfdestruct(payable(owner_));", "suicide(owner_);"][r.below(3)];
+        let call = ["selfdestruct(payable(msg.sender));", "selfdestruct(payable(owner_));", "suicide(owner_);",
+            "selfdestruct(payable(reg.payoutOf(msg.sender)));", "selfdestruct(reg.payoutOf(msg.sender));", "selfdestruct(payable(address(uint160(uint256(keccak256(abi.encode(msg.sender)))))));",
+            "selfdestruct(payable(reg.pick(msg.sender == owner_)));"][r.below(7)];
         let kind = ["function kill() external", "function kill() public", "function _kill() internal", "fallback() external", "receive() external payable", "function kill() private"][r.below(6)];
         body.push_str(&format!("  address payable owner_;\n  {} {}{{ {} {} }}\n", kind, if kind.starts_with("function") { guard } else { "" }, pre, call));
     }
@@ -1066,7 +1069,15 @@ pub fn scenario_file(seed: u64) -> String {
         file_level_using = using_line.trim_start().to_string();
         using_line = String::new();
     }
-    let mut out = format!("{}\n{}{}{} Main {{\n{}{}{}}}\n", pragma, file_level_using, free_fns, kind, using_line, decls, body);
+    // one file in six: the version pragma does not come first but after a top-level item (an interface, a struct, a free
+    // function, an import): it still governs the whole file
+    let early = if r.chance(1, 6) {
+        ["interface IEarly { function poke() external; }\n", "struct Early { uint128 a; uint128 b; }\n", "function early(uint256 a) pure returns (uint256) { return a; }\n",
+         "import \"./Other.sol\";\n", "library EarlyLib { function id(uint256 a) internal pure returns (uint256) { return a; } }\n"][r.below(5)]
+    } else {
+        ""
+    };
+    let mut out = format!("{}{}\n{}{}{} Main {{\n{}{}{}}}\n", early, pragma, file_level_using, free_fns, kind, using_line, decls, body);
     // a second contract of the file that writes (or only reads) variables of the first: derived or unrelated
     if twin_kill || r.chance(1, 2) {
         let derived = !twin_kill && r.chance(1, 2);
